@@ -98,8 +98,9 @@ def arr_as(x, dtype=None, shape=None):
     return a
 
 
-def pick_dtypes(rng, sides=("ref", "est"), p_int=0.75):
-    """a dtype (or None = float64) per side; at least one side is not float64"""
+def pick_dtypes(rng, sides=("ref", "est"), p_int=0.75, float32=True):
+    """a dtype (or None = float64) per side; at least one side is not float64.  float32=False: integer dtypes only (for
+    checks that compare real-valued scores to 1e-9: arithmetic on float32 arrays is legitimately single precision)"""
     while True:
         out = {}
         for s in sides:
@@ -108,7 +109,7 @@ def pick_dtypes(rng, sides=("ref", "est"), p_int=0.75):
                 out[s] = "int64"
             elif u < p_int:
                 out[s] = "int32"
-            elif u < p_int + 0.12:
+            elif u < p_int + 0.12 and float32:
                 out[s] = "float32"
         if out:
             return out
